@@ -24,7 +24,8 @@ MCCandidates == {
     C(-3025000, 50000, 32000, 12),     \* upper edge of L exactly
     C(-3024999, 50000, 32000, 13),     \* one MHz above
     C(-6575000, 50000, 32000, 14),     \* lower edge of L exactly
-    C( 1000000, 50000, 50001, 15) }    \* baud rate one MHz wider than the slot
+    C( 1000000, 50000, 50001, 15),     \* baud rate one MHz wider than the slot
+    C(       0, 50000, 40000, 16) }    \* a second, different carrier declared at the frequency of label 5
 
 Passive == [kind |-> "passive", bands |-> <<>>]
 Amp(lo, hi) == [kind |-> "amp", bands |-> <<<<lo, hi>>>>]
